@@ -15,6 +15,8 @@ R-C06.2   decision predicates (truth tables over copyable / droppable / used / l
 R-C06.3   check_cfg runs check_cfg_linearity on every normal path and returns its result;
           every block of the CFG gets a scope (no filtering).
 R-C06.4   the borrow-shadowing check of visit_Assign looks at every place in the target.
+R-C06.5   leaf_places yields exactly the leaves of a struct/tuple place (c06_leaves.py, below).
+R-C06.6   every "used twice"/"not used" decision is taken inside a loop over the leaves (c06_leafwise.py).
 Not decided: soundness/completeness of the place-based liveness argument as a whole.
 """
 
@@ -249,3 +251,12 @@ def run(ctx: Ctx) -> None:
     ctx.check(ok and g.every_path_to_exit_passes(calls_any({"_check_assign_targets"})), "R-C06.4", f"{va.qualname}#borrow-shadow-check-covers-all-target-places", va.where,
               {"iterates": ast.unparse(loops[0].iter)[:80] if loops else None},
               "a borrowed parameter can be rebound inside an unpacking assignment target: the caller gets back a different value than it lent")
+
+    # ------------------------------------------------------------ R-C06.5 leaf enumeration
+    from . import c06_leaves
+    c06_leaves.run(ctx)
+
+    # ------------------------------------------------------------ R-C06.6 decisions per leaf
+    from . import c06_leafwise
+    c06_leafwise.run(ctx)
+
